@@ -2,17 +2,25 @@
 // License, v. 2.0. If a copy of the MPL was not distributed with this
 // file, You can obtain one at https://mozilla.org/MPL/2.0/.
 
+#[cfg(not(rink_verif_sim))]
 use async_ctrlc::CtrlC;
 use async_std::channel::bounded;
 use async_std::channel::Receiver;
 use async_std::channel::Sender;
+#[cfg(not(rink_verif_sim))]
 use async_std::task::spawn_local;
+#[cfg(not(rink_verif_sim))]
 use async_std::task::JoinHandle;
+#[cfg(not(rink_verif_sim))]
 use async_std::{
     future::timeout,
     prelude::{FutureExt, StreamExt},
     process::{Command, Stdio},
 };
+#[cfg(rink_verif_sim)]
+use async_std::prelude::{FutureExt, StreamExt};
+#[cfg(rink_verif_sim)]
+use simkit::shim::parent::{spawn_local, timeout, Command, CtrlC, JoinHandle, Stdio};
 use std::cell::Cell;
 use std::env;
 use std::fmt;
